@@ -993,3 +993,19 @@ def lin_comb(cofs, vals):
 
 
 NAMES.update(Array=RArray, lin_comb=lin_comb)
+
+
+def poseidon_hash(inputs):
+    """reference sponge under the parameter set registered for the recorder's registry name (toy set for nobackend)"""
+    from vf.ref import poseidon as _p
+    from pysnark.poseidon_constants import poseidon_constants as pc
+    K = pc["nobackend"]
+    p = ctx.p or 21888242871839275222246405745257275088548364400416034343698204186575808495617
+    if not isinstance(inputs, list) or not all(isinstance(x, (RInt, RBool, RFxp)) for x in inputs):
+        raise MustRaise("can only hash lists of secrets")
+    vals = [(x.r if isinstance(x, RFxp) else x.v) for x in inputs]
+    ctx.flags.append("huge:hash output is a full-size field element")
+    return [RInt(v) for v in _p.sponge(vals, p, K["R_F"], K["R_P"], K["t"], K["a"], K["round_constants"], K["matrix"])]
+
+
+NAMES.update(poseidon_hash=poseidon_hash)
